@@ -57,6 +57,13 @@ def dump(x):
     return x
 
 
+def _try(f):
+    try:
+        return f()
+    except Exception as e:       # noqa
+        return ('exc', type(e).__name__)
+
+
 def digest(obj):
     return hashlib.sha1(json.dumps(obj, sort_keys=False, default=str).encode()).hexdigest()[:16]
 
@@ -79,6 +86,23 @@ def catalogue():
     C('iterdecode_lines', lambda A: list(penman.iterdecode(A['lines'], model=A['m'])))
     C('iterparse_lines', lambda A: list(penman.iterparse(A['lines'])))
     C('codec_iterdecode_lines', lambda A: list(penman.PENMANCodec(model=A['m']).iterdecode(A['lines'])))
+    # objects built directly by the caller: a Tree from a bare node (no metadata given), the bare node formatted
+    from penman.tree import Tree as _Tree
+    C('tree_from_node', lambda A: _Tree(copy.deepcopy(A['t'].node)))
+    C('format_node', lambda A: penman.format(A['t'].node))
+    C('interpret_tree_from_node', lambda A: layout.interpret(_Tree(copy.deepcopy(A['t'].node)), A['m']))
+    C('graph_from_triples', lambda A: penman.Graph(list(A['g'].triples)))
+    # Model.reify with the caller's own set of variables (a rarely used argument)
+    def reify_with_vars(A):
+        out = []
+        for t in list(A['g'].triples)[:8] + [('a', ':mod', 'b')]:
+            try:
+                out.append(A['m'].reify(t, A['vars']))
+            except Exception as e:       # noqa
+                out.append(('exc', type(e).__name__))
+        return out
+    C('model_reify_with_variables', reify_with_vars)
+    C('model_reify_with_frozenset', lambda A: [r for r in [_try(lambda: A['m'].reify(('a', ':mod', 'b'), frozenset(A['vars'])))]])
     C('dumps', lambda A: penman.dumps([A['g'], A['g']], model=A['m']))
     C('encode', lambda A: penman.encode(A['g'], model=A['m']))
     C('encode_top', lambda A: penman.encode(A['g'], top=sorted(A['g'].variables(), key=repr)[-1], model=A['m']))
@@ -171,15 +195,19 @@ def make_args(rng_seed, idx, force_model=None):
         lines[0] = '\ufeff' + lines[0]          # a byte-order mark left by the editor
     elif r < .5:
         lines = ['  \t' + ln.rstrip('\n') + '  \r\n' for ln in lines]
-    return {'s': s, 't': t, 'g': g, 'g2': g2, 'm': m, 'lines': lines}
+    return {'s': s, 't': t, 'g': g, 'g2': g2, 'm': m, 'lines': lines, 'vars': set(g.variables()) | {'_'}}
 
 
-def scribble(r, A):
+def scribble(r, A, annotate=False):
     """Apply the DOCUMENTED in-place operations to a result (rearrange / reset_variables on a Tree; |=, -=, top
     assignment on a Graph): the caller owns the result, so this must never reach the arguments of the call."""
     from penman import layout
     from penman.graph import Graph
     from penman.tree import Tree
+    if annotate and isinstance(r, (Tree, Graph)):
+        # an object the caller built WITHOUT giving metadata owns its metadata dict (configure(g) / Tree(node, md) hand the
+        # given mapping on as it is: noted as N13 in DESIGN.md, like N10, not judged)
+        r.metadata['zz-note'] = 'added by the caller'
     if isinstance(r, Tree):
         layout.rearrange(r, key=A['m'].canonical_order, attributes_first=True)
         layout.rearrange(r, key=lambda role: role[::-1])
@@ -237,7 +265,7 @@ def one_case(args):
         if after == base and idx % 3 == 0:
             # the result is the CALLER'S object: editing it in place must not reach the arguments (no shared sub-objects)
             try:
-                scribble(common.timed(fn, A, seconds=10), A)
+                scribble(common.timed(fn, A, seconds=10), A, annotate=name in ('tree_from_node', 'graph_from_triples'))
             except Exception:        # noqa
                 pass
             after = snapshot(A)
